@@ -615,7 +615,8 @@ class ParserField:
             # the map is built once the references are resolved (before the first parse)
             self.discriminator_pending = True
             return
-        self.discriminator_pending = False
+        # (still pending until the map is built: a declaration that is refused here is refused by every parse)
+        self.discriminator_pending = bool(self.discriminator)
         if self.discriminator:
             discriminator_map = {}
             comb = None
@@ -679,6 +680,7 @@ class ParserField:
 
                     discriminator_map[const] = arg
                 self.discriminator_map = discriminator_map
+                self.discriminator_pending = False
             else:
                 raise TypeError(
                     f"Field: {repr(self.attname)} specify a discriminator: "
